@@ -86,10 +86,10 @@ type HexaCase struct {
 }
 
 var specHexa = pbt.Register(pbt.Spec[HexaCase]{
-	Prop: "C15", Name: "hexa32-random",
-	Rule: "random 64-bit integers (uniform bits, every magnitude class, boundary catalogue): same three checks as the sweep; non-trivial = |n| >= 32; distinct by n",
+	Prop: "C15", Name: "hexa32-random", Parallel: 8,
+	Rule:  "random 64-bit integers (uniform bits, every magnitude class, boundary catalogue): same three checks as the sweep; non-trivial = |n| >= 32; distinct by n",
 	Quick: 300000, Thorough: 2000000,
-	Draw:  func(t *rapid.T) HexaCase { return HexaCase{N: gen.Int64().Draw(t, "n")} },
+	Draw: func(t *rapid.T) HexaCase { return HexaCase{N: gen.Int64().Draw(t, "n")} },
 	Run: func(c HexaCase) *pbt.Result {
 		if err := checkHexa(c.N); err != nil {
 			return &pbt.Result{Err: err}
@@ -108,8 +108,8 @@ func TestHexa32Random(t *testing.T) { specHexa.Check(t) }
 const b32digits = "0123456789abcdefghijklmnopqrstuv"
 
 var specHexaInv = pbt.Register(pbt.Spec[HexaCase]{
-	Prop: "C15", Name: "hexa32-canonical-strings",
-	Rule: "canonical texts built digit by digit (a decimal digit; or x/z + 1..13 base-32 digits without leading zero, value within int64, x-form >= 10; or z8000000000000): ToLong32(s) equals the value computed with strconv.ParseUint(base 32) and ToString32 of it returns s; non-trivial = >= 2 digits; distinct by text",
+	Prop: "C15", Name: "hexa32-canonical-strings", Parallel: 8,
+	Rule:  "canonical texts built digit by digit (a decimal digit; or x/z + 1..13 base-32 digits without leading zero, value within int64, x-form >= 10; or z8000000000000): ToLong32(s) equals the value computed with strconv.ParseUint(base 32) and ToString32 of it returns s; non-trivial = >= 2 digits; distinct by text",
 	Quick: 300000, Thorough: 1000000,
 	Draw: func(t *rapid.T) HexaCase {
 		switch rapid.IntRange(0, 9).Draw(t, "kind") {
@@ -225,8 +225,8 @@ type Bits64Case struct {
 }
 
 var specBits64 = pbt.Register(pbt.Spec[Bits64Case]{
-	Prop: "C15", Name: "bitutil-64-random",
-	Rule: "random and boundary (high int32, low int32, src int64) triples: Composite64 == high<<32|uint32(low), GetHigh64/GetLow64 return the halves, SetHigh64/SetLow64 replace exactly one half, recomposition of src is the identity; non-trivial = both halves non-zero; distinct by the triple",
+	Prop: "C15", Name: "bitutil-64-random", Parallel: 8,
+	Rule:  "random and boundary (high int32, low int32, src int64) triples: Composite64 == high<<32|uint32(low), GetHigh64/GetLow64 return the halves, SetHigh64/SetLow64 replace exactly one half, recomposition of src is the identity; non-trivial = both halves non-zero; distinct by the triple",
 	Quick: 300000, Thorough: 2000000,
 	Draw: func(t *rapid.T) Bits64Case {
 		return Bits64Case{H: gen.Int32().Draw(t, "h"), W: gen.Int32().Draw(t, "w"), Src: gen.Int64().Draw(t, "src")}
@@ -317,7 +317,9 @@ func ipQuick(i uint64) uint64 {
 var sweepIPq = pbt.RegisterSweep(pbt.Sweep{Prop: "C15", Name: "iputil-sampled-addresses",
 	Rule: "quick-tier stand-in: 2^20 addresses i*0x9E3779B1 mod 2^32 plus every a.b.0.0 and a.b.255.255 (2 x 65536 edges); same checks",
 	N:    1<<20 + 2<<16, Run: func(i uint64) (bool, error) { return checkIP(ipQuick(i)) },
-	Show: func(i uint64) interface{} { return net.IP(binary.BigEndian.AppendUint32(nil, uint32(ipQuick(i)))).String() }})
+	Show: func(i uint64) interface{} {
+		return net.IP(binary.BigEndian.AppendUint32(nil, uint32(ipQuick(i)))).String()
+	}})
 
 // sweepWorkers: goroutines per shard process so that shards x workers is about the number of CPUs.
 func sweepWorkers() int {
